@@ -37,6 +37,12 @@ CHECKS.update({
  "C13": ("fault_enumeration", "deterministic simulation with fault injection: seeded RAM images and dense stimulus schedules of every kind on arbitrary clock edges, every call wrapped in catch_unwind with overflow checks on",
          "Random and opcode-biased images x 5 stack sizes x limits x hostile registers under schedules of all stimulus kinds (key, continue, resets, reloads with generated images, input/pin changes, voltages from raw f32 bit patterns incl. NaN/inf/subnormal, direct bus reads/writes to every address, RAM bit flips, step-mode switches); after every stimulus all getters are read and the machine is stepped further.",
          "Trusted: a panic/overflow is the only failure notion; debug assertions are off as in the shipped release build.", "DESIGN.md 6 C13"),
+ "C10": ("exploration", "deterministic simulation: two-party history (CPU-driven accesses and an outside caller's direct bus calls / setters, interleaved by the scheduler) against a map model, with the single-operation and write-pair planes swept completely",
+         "Every address x every byte as a single write followed by purity-checked reads of all 256 addresses, every ordered pair of write addresses, and sampled histories mixing direct bus calls, CPU loads/stores through all four addressing modes to arbitrary addresses, input/board setters and key presses; RAM, input registers, output registers, key-enable bit and board ports compared with R-BUS after every operation; every read is cloned-before / compared-after.",
+         "Trusted: R-BUS/R-BOARD models; values of 0xF2 and 0xF4-0xFB reads are not asserted (only purity and non-interference).", "DESIGN.md 6 C10"),
+ "C14": ("exploration", "deterministic simulation: two-party history (program-side port writes, environment-side input changes with arbitrary f32 bit patterns) against a reference board model checked after every operation",
+         "Sampled histories of port writes (direct and through running helper programs; every ICR source x polarity, UDR, UOR, 0xF3) interleaved with jumper/UIO/voltage/digital-input changes drawn from DAC grid points +-1 ulp, clamp edges and non-finite values; complete board status incl. interrupt flip-flop/source flag and fan period compared with R-BOARD after every operation; thorough sweeps all 2^32 bit patterns through each voltage setter.",
+         "Trusted: R-BOARD written from the statement; DASR.FAN and DAISR bits 2-7 masked; UOR-on-input-pin effect and sticky source flag mirrored de facto; fan period within +-1 LSB.", "DESIGN.md 6 C14"),
 })
 
 PENDING = {}
